@@ -50,7 +50,7 @@ def run_api(chk, prop, variants, san="asan", nshards=16, extra_args=None, stall_
                 chk.inconclusive.append(dict(variant=vtag, case=c.get("idx"), desc=_j(c.get("desc")),
                                              how="%s (%s) while running the case: belongs to C11/C04, not decided by this property" % (c["kind"], c["key"])))
                 continue
-            if c.get("kind") == "batch-only":
+            if c.get("kind") == "batch-only" and prop in ("C01", "C02", "C05", "C06", "C11", "C12", "C13", "C18"):
                 chk.inconclusive.append(dict(variant=vtag, case=c.get("idx"), desc=_j(c.get("desc")),
                                              how="crash only while cases ran back to back in one process (%s); alone in a fresh process the case is fine: history dependence belongs to C15" % c["key"]))
                 continue
@@ -64,7 +64,9 @@ def run_api(chk, prop, variants, san="asan", nshards=16, extra_args=None, stall_
         for v in sr.violations:
             by_key.setdefault(v.get("key", "?"), []).append(v)
         for key, vs in by_key.items():
-            confirmed = prop == "C15"
+            # (only for the file-level operation properties, whose sequences C15 covers; for the component properties
+            # C07-C10 and C16 a wrong result from a reused or earlier-used object IS a violation of that property)
+            confirmed = prop not in ("C01", "C02", "C05", "C06", "C11", "C12", "C13", "C18")
             tried = 0
             for v in vs[:3]:
                 if confirmed or v.get("case") is None or v.get("case", -1) < 0:
